@@ -570,6 +570,19 @@ class SyncObj(object):
         self._onTick(timeToWait)
 
     def _onTick(self, timeToWait=0.0):
+        # The stored state comes first: entries applied before the dump file is loaded would be applied
+        # on the constructor's state and a second time after the dump has been installed.
+        if self.__needLoadDumpFile:
+            if self.__fullDumpFile is not None and os.path.isfile(self.__fullDumpFile):
+                self.__loadDumpFile(clearJournal=False)
+            if self.__conf.dynamicMembershipChange:
+                # Cluster changes take effect when they enter the log: restore those of the journal.
+                for entry in self.__getEntries(self.__raftLog[0][1]):
+                    clusterChangeRequest = self.__parseChangeClusterRequest(entry[0])
+                    if clusterChangeRequest is not None:
+                        self.__doChangeCluster(clusterChangeRequest)
+            self.__needLoadDumpFile = False
+
         if not self.__transport.ready:
             try:
                 self.__transport.tryGetReady()
@@ -581,17 +594,6 @@ class SyncObj(object):
             time.sleep(timeToWait)
             self.__applyLogEntries()
             return
-
-        if self.__needLoadDumpFile:
-            if self.__fullDumpFile is not None and os.path.isfile(self.__fullDumpFile):
-                self.__loadDumpFile(clearJournal=False)
-            if self.__conf.dynamicMembershipChange:
-                # Cluster changes take effect when they enter the log: restore those of the journal.
-                for entry in self.__getEntries(self.__raftLog[0][1]):
-                    clusterChangeRequest = self.__parseChangeClusterRequest(entry[0])
-                    if clusterChangeRequest is not None:
-                        self.__doChangeCluster(clusterChangeRequest)
-            self.__needLoadDumpFile = False
 
         workTime = monotonicTime() - self.__startTime
         if workTime > self.__numOneSecondDumps:
